@@ -679,12 +679,25 @@ def _from_checker(e):
         return False
     tb = e.__traceback__
     last = None
+    chain = []
     while tb is not None:
         fn = tb.tb_frame.f_code.co_filename
         if "site-packages" not in fn and not fn.startswith("<") and "/lib/python" not in fn:
             last = fn
+            chain.append(fn)
         tb = tb.tb_next
-    return last is None or not last.startswith(_REPO + "/")
+    if last is None:
+        return True
+    if last.startswith(_REPO + "/"):
+        return False
+    # raised inside a user-supplied function of the contract (a transform, a boundary function, ...) *called by the code
+    # under contract*: the code handed that function something outside its domain (e.g. the wrong parameter object)
+    if "/contracts/" in last and any(f.startswith(_REPO + "/") for f in chain) \
+            and isinstance(e, (AttributeError, KeyError, IndexError, TypeError)):
+        k = max(i for i, f in enumerate(chain) if f.startswith(_REPO + "/"))
+        if all("/contracts/" in f for f in chain[k + 1:]):
+            return False
+    return True
 
 
 def _cut(p, n=400):
